@@ -1,6 +1,6 @@
 """job generator shared by C03, C04 and the LDPC-Staircase / 2D-parity halves of C01, C07, C08, C10, C11, C16:
 session contract of the generic linear-binary-code decoding engines (contracts/c03_lbc_session.c)."""
-import random
+import os, random
 from ofvlib.core import Job, DEFAULT_CHECKS
 
 LB = "src/lib_common/linear_binary_codes_utils/"
@@ -31,11 +31,14 @@ LDPC = {
     "k5r4":   (5, 4, 3, 7, 0, [0x1b1, 0xf3, 0x1c6, 0x17c]),
     "k3r5x":  (3, 5, 3, 4, 1, [0xa1, 0xa3, 0x66, 0xcc, 0x78]),
     "k3r5e":  (3, 5, 4, 1, 0, [0xe1, 0xc3, 0xa6, 0xec, 0x78]),
-    "k2r5":   (2, 5, 5, 3, 0, [0x61, 0x63, 0x66, 0x6c, 0x78]),   # N1 = 5: one arrival can bring five equations to degree one
+    "k2r5":   (2, 5, 5, 3, 0, [0x61, 0x63, 0x66, 0x6c, 0x78]),
+    "k2r5ex": (2, 5, 4, 1, 1, [0x61, 0x63, 0x66, 0x6c, 0x78]),   # N1 even AND extra entries: the last repair symbol is NOT null, nothing may be injected   # N1 = 5: one arrival can bring five equations to degree one
     "k5r5":   (5, 5, 3, 1, 0, [0x2a1, 0x1a3, 0xe6, 0x34c, 0x358]),
     "k6r4":   (6, 4, 3, 2, 0, [0x371, 0x3b3, 0xf6, 0x3cc]),
     "k2r7":   (2, 7, 7, 3, 0, [0x181, 0x183, 0x186, 0x18c, 0x198, 0x1b0, 0x1e0]),
     "k4r6":   (4, 6, 5, 2, 0, [0x3c1, 0x343, 0x386, 0x1cc, 0x3d8, 0x2f0]),
+    "k4r8x":  (4, 8, 3, 1, 1, [0x301, 0x903, 0x506, 0xc0c, 0x918, 0x530, 0x660, 0x6c0]),   # low rate: long peeling chains
+    "k5r7":   (5, 7, 3, 3, 0, [0x981, 0xa03, 0xc06, 0x30c, 0x518, 0x4b0, 0x2e0]),
 }
 # 2D parity: (a, b): k = a*b, n-k = a+b
 P2D = {"2x2": (2, 2), "2x3": (2, 3), "3x2": (3, 2), "1x3": (1, 3), "3x3": (3, 3), "2x1": (2, 1)}
@@ -58,7 +61,7 @@ REL = {   # which clauses of the session contract decide which property
 }
 
 
-def job(prefix, group, codec, key, seq, api=0, finish=0, cb=0, rnd=(0,), ln=1, release=1, timeout=240, leak=True, prop=None):
+def job(prefix, group, codec, key, seq, api=0, finish=0, cb=0, rnd=(0,), ln=1, release=1, timeout=150, leak=True, prop=None):
     if codec == 3:
         k, r, n1, seed, extra, rows = LDPC[key]
         defs = {"OFV_CODEC": 3, "OFV_K": k, "OFV_R": r, "OFV_N1": n1, "OFV_SEED": seed, "OFV_EXTRA": extra, "OFV_ROWS": clist(rows)}
@@ -107,11 +110,84 @@ def seq_of(mask, n, order, rng):
     return s
 
 
+# ---- directed histories: arrivals that exercise the corner cases of the peeling engine (computed from the matrix, pure combinatorics) -------------------
+def _esi_rows(key):
+    k, r, n1, seed, extra, rows = LDPC[key]
+    out = []
+    for m in rows:
+        e = 0
+        for c in range(k + r):
+            if (m >> c) & 1:
+                e |= 1 << (c + k if c < r else c - r)
+        out.append(e)
+    return k, r, out
+
+
+def _peel(H, known):
+    ch = True
+    while ch:
+        ch = False
+        for h in H:
+            u = h & ~known
+            if u and (u & (u - 1)) == 0:
+                known |= u
+                ch = True
+    return known
+
+
+def directed(key, limit, rng):
+    """(received-before set S, arriving ESI y) pairs such that the arrival of y brings at least two equations to a single unknown at once:
+    class A: the same unknown source in two equations, and it is not the last missing source; class B: different unknowns (cascade);
+    class C: five or more equations at once (table growth)."""
+    k, r, H = _esi_rows(key)
+    n = k + r
+    allsrc = (1 << k) - 1
+    inject = 0
+    if LDPC[key][2] % 2 == 0 and not LDPC[key][4]:
+        inject = 1 << (n - 1)
+    A, B, C = [], [], []
+    for S in range(1 << n):
+        K0 = _peel(H, S | inject)
+        if (K0 & allsrc) == allsrc:
+            continue
+        for y in range(n):
+            if (K0 >> y) & 1:
+                continue
+            K1 = K0 | (1 << y)
+            singles = [h & ~K1 for h in H if (h >> y) & 1 and (h & ~K1) and ((h & ~K1) & ((h & ~K1) - 1)) == 0]
+            if len(singles) < 2:
+                continue
+            fin = _peel(H, K1)
+            same = [u for u in set(singles) if singles.count(u) >= 2 and u < (1 << k)]
+            if same and (fin & allsrc) != allsrc:
+                A.append((S, y))
+            if len(set(singles)) >= 2:
+                k2 = K1
+                for u in singles:
+                    k2 |= u
+                if _peel(H, k2) != k2:      # ... and rebuilding them releases further symbols (a cascade inside the recursion)
+                    B.append((S, y))
+            if len(singles) >= 5:
+                C.append((S, y))
+    if os.environ.get('OFV_DEBUG_DIRECTED'):
+        print(key, len(A), len(B), len(C))
+    out = []
+    for cls in (A, B, C):
+        rng.shuffle(cls)
+        out += cls[:limit]
+    seqs = []
+    for (S, y) in out:
+        pre = [i for i in range(n) if (S >> i) & 1]
+        rng.shuffle(pre)
+        seqs.append(pre + [y])
+    return seqs
+
+
 def c03_jobs(tier, seed, prop=None, prefix="ml", group_prefix="lbc_finish"):
     """every received subset of a few small codes, then of_finish_decoding; submission API, arrival order and the ML injection order vary"""
     rng = random.Random(seed)
     js = []
-    fam = [("k3r3", 3), ("k4r4", 3)] if tier == "quick" else [("k2r3", 3), ("k3r3", 3), ("k3r4", 3), ("k4r4", 3), ("k4r4e", 3), ("k2r4x", 3), ("k5r4", 3), ("k3r5x", 3)]
+    fam = [("k3r3", 3), ("k4r4", 3), ("k2r5ex", 3)] if tier == "quick" else [("k2r5ex", 3), ("k2r3", 3), ("k3r3", 3), ("k3r4", 3), ("k4r4", 3), ("k4r4e", 3), ("k2r4x", 3), ("k5r4", 3), ("k3r5x", 3)]
     for key, codec in fam:
         k, r = LDPC[key][0], LDPC[key][1]
         n = k + r
@@ -140,12 +216,12 @@ def c04_jobs(tier, seed, prop=None, prefix="it", group_prefix="lbc_stream"):
     """arrival sequences (all n symbols in some order, with repetitions): the per-prefix clauses cover every prefix of each sequence"""
     rng = random.Random(seed + 1)
     js = []
-    fam = [("k2r3", 8), ("k3r3", 12), ("k4r4", 12), ("k4r4e", 6), ("k2r4x", 6), ("k2r5", 6), ("k5r4", 6)] if tier == "quick" else \
-          [("k1r3", 8), ("k2r3", 24), ("k3r3", 40), ("k3r4", 30), ("k4r4", 60), ("k4r4e", 30), ("k2r4x", 20), ("k2r5", 30), ("k5r4", 30), ("k3r5x", 20), ("k3r5e", 20), ("k5r5", 20), ("k6r4", 20), ("k2r7", 10), ("k4r6", 10)]
+    fam = [("k2r3", 8), ("k3r3", 12), ("k4r4", 12), ("k4r4e", 6), ("k2r4x", 6), ("k2r5", 6), ("k5r4", 6), ("k2r5ex", 4), ("k3r5x", 2), ("k5r5", 2), ("k4r8x", 3), ("k5r7", 3)] if tier == "quick" else \
+          [("k1r3", 8), ("k2r3", 24), ("k3r3", 40), ("k3r4", 30), ("k4r4", 60), ("k4r4e", 30), ("k2r4x", 20), ("k2r5", 30), ("k5r4", 30), ("k3r5x", 20), ("k3r5e", 20), ("k5r5", 20), ("k6r4", 20), ("k2r7", 10), ("k4r6", 10), ("k2r5ex", 12), ("k4r8x", 20), ("k5r7", 20)]
     for key, cnt in fam:
         k, r = LDPC[key][0], LDPC[key][1]
         n = k + r
-        seqs = [list(range(n)), list(range(n - 1, -1, -1)), list(range(k, n)) + list(range(k))] + perms_with_dups(n, cnt, rng)
+        seqs = [list(range(n)), list(range(n - 1, -1, -1)), list(range(k, n)) + list(range(k))] + perms_with_dups(n, cnt, rng) + directed(key, 3 if tier == "quick" else 12, rng)
         for s in seqs:
             js.append(job(prefix, "%s_ldpc" % group_prefix, 3, key, s, api=0, finish=0, prop=prop))
     return dedupe(js)
@@ -168,6 +244,10 @@ def cb_jobs(tier, seed, prop=None, prefix="cb", group_prefix="lbc_callbacks"):
         for s in (list(range(k, n)), list(range(n - 1, k - 1, -1))):
             for cbv in (1, 2, 7):
                 js.append(job(prefix, "%s_ldpc" % group_prefix, 3, key, s, api=0, finish=1, cb=cbv, prop=prop))
+    # directed histories (two equations on the same unknown, cascades, five equations at once) on the codes that have them
+    for key in (("k3r5x", "k5r5", "k4r4", "k2r5", "k4r8x") if tier == "quick" else ("k3r5x", "k5r5", "k4r4", "k2r5", "k2r7", "k4r6", "k5r4", "k3r4", "k6r4", "k4r8x", "k5r7")):
+        for i, sq in enumerate(directed(key, 4 if tier == "quick" else 14, rng)):
+            js.append(job(prefix, "%s_ldpc" % group_prefix, 3, key, sq, api=0, finish=(i % 2), cb=(1, 2, 3, 5)[i % 4], prop=prop))
     return dedupe(js)
 
 
@@ -200,7 +280,7 @@ def p2d_jobs(tier, seed, prop=None, prefix="2d", group_prefix="2d_decoder"):
         masks = list(subsets(n))
         if tier == "quick" and n > 6:
             full = (1 << n) - 1
-            masks = sorted(set([full] + [full & ~(1 << i) for i in range(n)] + [rng.randrange(1 << n) for _ in range(40)]))
+            masks = sorted(set([full] + [full & ~(1 << i) for i in range(n)] + [full & ~(1 << i) & ~(1 << j) for i in range(n) for j in range(i)] + [rng.randrange(1 << n) for _ in range(24)]))
         if tier != "quick" and n > 8:
             full = (1 << n) - 1
             masks = sorted(set([full] + [full & ~(1 << i) for i in range(n)] + [full & ~(1 << i) & ~(1 << j) for i in range(n) for j in range(i)] + [rng.randrange(1 << n) for _ in range(150)]))
@@ -208,6 +288,9 @@ def p2d_jobs(tier, seed, prop=None, prefix="2d", group_prefix="2d_decoder"):
             api = rng.choice((0, 2))
             js.append(job(prefix, "%s_finish" % group_prefix, 5, key, seq_of(m, n, rng.choice(("inc", "dec", "rnd")), rng), api=api, finish=1,
                           cb=rng.choice((0, 0, 1, 2)), rnd=[rng.randrange(a + b) for _ in range(a + b)], prop=prop))
-        for s in perms_with_dups(n, 6 if tier == "quick" else 20, rng):
+        k2 = a * b
+        for s in [list(range(k2, n)) + list(range(k2)), list(range(n - 1, -1, -1)), list(range(n))] + perms_with_dups(n, 6 if tier == "quick" else 20, rng):
             js.append(job(prefix, "%s_stream" % group_prefix, 5, key, s, api=0, finish=0, prop=prop))
+            if s[0] != 0:   # the same order, stopped after the first k symbols that complete or not, then finish + release
+                js.append(job(prefix, "%s_stream" % group_prefix, 5, key, s[:k2 + 1], api=0, finish=1, cb=1, prop=prop))
     return dedupe(js)
